@@ -12,7 +12,7 @@
 (* issue of the same peer only when the previous one is older than 10 s,   *)
 (* so the count itself is not a function of the quotes alone.              *)
 (***************************************************************************)
-EXTENDS Quote
+EXTENDS Quote, SequencesExt
 
 NoQuote == [ts |-> -1, live |-> -1, rpc |-> -1]
 HInit(Peers) == [kept |-> [p \in Peers |-> NoQuote], issue |-> [p \in Peers |-> FALSE]]
@@ -43,4 +43,43 @@ C13_HistoryKeeps(k, q, k2) ==
     /\ (k # NoQuote /\ k.ts # q.ts /\ HistInconsistent(OldOf(k, q), NewOf(k, q))) => k2 = k
     /\ k2 \in {k, q}
     /\ k # NoQuote => k2.ts >= k.ts
+
+(***************************************************************************)
+(* One QuoteVerification command carries a BATCH of (peer, quote) entries, *)
+(* which the node takes in order; entries of a peer it already considers   *)
+(* bad are skipped (nothing further is recorded or retained for it).       *)
+(* Every entry of a batch is subject to the statement's rule.  Only the    *)
+(* state before and after the whole command is observable, so the          *)
+(* reference an entry is compared with is the observed retained quote for  *)
+(* the first entry of a peer and, for further entries of the same peer in  *)
+(* the same batch, the one that follows from the entries before it         *)
+(* (newest consistent quote, as above).                                    *)
+(* entries : sequence of [p, q, bad0]   (bad0: the peer was considered bad *)
+(*           before the command)                                           *)
+(***************************************************************************)
+HandleEntry(s, isBad, p, q) == IF isBad THEN s ELSE VerifyQuote(s, p, q)
+HandleBatch(s, entries) == FoldLeft(LAMBDA acc, en : HandleEntry(acc, en.bad0, en.p, en.q), s, entries)
+
+\* the statement's rule for one entry against the reference k
+MustFlag(k, q) == k # NoQuote /\ k.ts # q.ts /\ HistInconsistent(OldOf(k, q), NewOf(k, q))
+
+\* start: a state whose kept[p] is the retained quote observed before the command.  Result: the peers that must have
+\* an issue on record afterwards and the (peer, quote) pairs that must not be retained afterwards
+BatchJudgement(start, entries) ==
+    FoldLeft(LAMBDA acc, en :
+                LET k == acc.s.kept[en.p] IN
+                [s      |-> HandleEntry(acc.s, en.bad0, en.p, en.q),
+                 must   |-> acc.must \cup (IF MustFlag(k, en.q) THEN {en.p} ELSE {}),
+                 nokeep |-> acc.nokeep \cup (IF MustFlag(k, en.q) THEN {<<en.p, en.q>>} ELSE {})],
+             [s |-> start, must |-> {}, nokeep |-> {}], entries)
+
+\* every inconsistent entry of the batch is flagged, whatever stands before it in the batch
+C13_History_Batch(j, issueAfter) == \A p \in j.must : issueAfter[p]
+\* per peer of the batch (k, k2: retained before / after the command, qs: the peer's quotes in the batch): nothing but
+\* the old reference or one of the batch's quotes is retained, the reference never moves back, and an entry that had to
+\* be flagged is not the reference afterwards
+C13_HistoryKeeps_Batch(j, p, k, k2, qs) ==
+    /\ k2 \in {k} \cup qs
+    /\ k # NoQuote => k2.ts >= k.ts
+    /\ k2 # k => <<p, k2>> \notin j.nokeep
 =============================================================================
